@@ -687,15 +687,15 @@ class Cell3Sec(CellBase):
         self._sec1 = Cell(sec_positions[0],
                           self.secradius,
                           cell_id=None,
-                          rotation=self.rotation - 30)
+                          rotation=self.rotation - 30.0)
         self._sec2 = Cell(sec_positions[1],
                           self.secradius,
                           cell_id=None,
-                          rotation=self.rotation - 30)
+                          rotation=self.rotation - 30.0)
         self._sec3 = Cell(sec_positions[2],
                           self.secradius,
                           cell_id=None,
-                          rotation=self.rotation - 30)
+                          rotation=self.rotation - 30.0)
 
     def _calc_sectors_positions(self) -> np.ndarray:
         """
@@ -786,9 +786,9 @@ class Cell3Sec(CellBase):
         # sector.
         self._rotation = value
 
-        self._sec1.rotation = value - 30
-        self._sec2.rotation = value - 30
-        self._sec3.rotation = value - 30
+        self._sec1.rotation = value - 30.0
+        self._sec2.rotation = value - 30.0
+        self._sec3.rotation = value - 30.0
         sec_positions = self._calc_sectors_positions()
 
         self._sec1.pos = sec_positions[0]
